@@ -1200,6 +1200,11 @@ def tapes_for(rng, mod, n, length=400):
     """(entry, tape) pairs; every entry is used, weights favour small loop counts"""
     out = []
     ents = list(mod.all_entries)
+    # systematic tapes: nothing raises / loops are empty; everything raises at once; first test false,
+    # second true (explicit returns); one or two items per loop with late raises
+    for pat in ([0], [1], [0, 1], [1, 0, 0], [2, 0, 0, 0, 1]):
+        for e in ents:
+            out.append((e, (pat * length)[:length]))
     for i in range(n):
         w = rng.choice([[0, 0, 1, 1, 2], [0, 1, 1, 1, 2, 3], [0, 0, 0, 1], [1, 1, 1, 0, 2], [0, 1]])
         tape = [rng.choice(w) for _ in range(length)]
